@@ -56,6 +56,9 @@ CHECKS = {
  "C06": dict(level="exploration", technique="exhaustive enumeration of a result-type x parameter-type matrix, list/optional/token/@error terms and binding layouts; verdict compared with an expected table cross-checked against go/types; every accepted binding compiled by the real toolchain with the unmodified generated files and run with sentinel values",
    text="Every cell of the type matrix and every layout is generated: lox must accept exactly the bindings in which each production has one and only one assignable method, name the production or method otherwise, and every accepted package is really compiled and run so that each action parameter is shown to hold exactly the value produced for its term.",
    note="Trusted: the assignability table in cmd/loxmc/c06.go (checked against go/types on every run); the fast ParseGo path.", ref="DESIGN.md section C06"),
+ "C13": dict(level="model_checking", technique="controlled nondeterminism: every map range of lox rewritten (from the current tree) over an explorer-owned key order, all schedules with one deviating occurrence and all site-uniform policies executed; explicit-state BFS over directory states with the real binary",
+   text="(a) The generator is run under every explored map-iteration schedule (default canonical order, then every single-occurrence deviation, then site-uniform reversals/rotations of one, two and all sites): generated files, report and diagnostics must be identical. (b) A breadth-first search over directory states (earlier generations of this or another grammar, deleted or swapped generated files) with the real binary invoked from three working directories: every run must leave exactly the bytes a fresh directory gets.",
+   note="Trusted: the map-range rewriter (cmd/maprewrite) and hooks/verifmap.go. Libraries outside the repository are exercised by (b)'s separate processes, not explored. Bounds: one deviation per execution plus uniform policies; directory histories of depth 2 (quick) / 3 (thorough).", ref="DESIGN.md section C13, 2.6"),
 }
 
 NA_REASON = "check not built yet (work in progress; see DESIGN.md for the plan)"
